@@ -212,9 +212,14 @@ Definition gz_step (cfg : gzcfg) (w : gzw) (c : wcall) : gzw * list wcall :=
   | CWrite p =>
       let n := payload_len p in
       if g_stream w then (w, [CWrite p])
-      else if gz_cap cfg <? g_buf w + n then let '(w1, pre) := gz_stream w in (w1, pre ++ [CWrite p])
-      else ({| g_status := g_status w; g_wrote := g_wrote w; g_committed := g_committed w; g_buf := g_buf w + Z.max 0 n;
-               g_bufparts := g_bufparts w + 1; g_stream := false; g_hdr := g_hdr w |}, [])
+      else
+        (* a Write without a WriteHeader before it means 200, as in net/http *)
+        let w := if g_wrote w then w
+                 else {| g_status := 200; g_wrote := true; g_committed := g_committed w; g_buf := g_buf w; g_bufparts := g_bufparts w;
+                         g_stream := g_stream w; g_hdr := g_hdr w |} in
+        if gz_cap cfg <? g_buf w + n then let '(w1, pre) := gz_stream w in (w1, pre ++ [CWrite p])
+        else ({| g_status := g_status w; g_wrote := g_wrote w; g_committed := g_committed w; g_buf := g_buf w + Z.max 0 n;
+                 g_bufparts := g_bufparts w + 1; g_stream := false; g_hdr := g_hdr w |}, [])
   | CFlush => let '(w1, pre) := gz_stream w in (w1, pre ++ [CFlush])
   end.
 
